@@ -180,10 +180,33 @@ func (smpl *Simple[Type]) main() {
 	case <-smpl.breaker.IsBreaked():
 	case <-smpl.opts.Ctx.Done():
 	case <-smpl.graceful.IsBreaked():
-		smpl.priority.GracefulStop()
+		smpl.gracefulStop()
 	case err := <-smpl.priority.Err():
 		smpl.err <- err
 	}
+}
+
+// Waits for the graceful stop of the priority discipline, but remains responsive to
+// the rough stop and cancel.
+func (smpl *Simple[Type]) gracefulStop() {
+	done := make(chan struct{})
+
+	go func() {
+		defer close(done)
+
+		smpl.priority.GracefulStop()
+	}()
+
+	select {
+	case <-done:
+		return
+	case <-smpl.breaker.IsBreaked():
+	case <-smpl.opts.Ctx.Done():
+	}
+
+	smpl.priority.Stop()
+
+	<-done
 }
 
 func (smpl *Simple[Type]) handler(ctx context.Context) {
